@@ -1,0 +1,55 @@
+//! Verification hooks. Compiled only with `--cfg saphyr_verif`; never part of a normal build.
+//!
+//! A deterministic simulator bounds the *work* the scanner and parser perform with a step clock
+//! instead of a wall clock. Loops that do not go through the [`Input`](crate::Input) seam (and
+//! would therefore be invisible to a counting input) report their iterations here. With the
+//! default budget (`u64::MAX`) the hooks are inert even when compiled in.
+
+use std::cell::Cell;
+
+thread_local! {
+    static WORK_TICKS: Cell<u64> = const { Cell::new(0) };
+    static WORK_BUDGET: Cell<u64> = const { Cell::new(u64::MAX) };
+}
+
+/// Payload of the panic raised when the work budget of this thread is exceeded.
+#[derive(Debug, Clone, Copy, PartialEq, Eq)]
+pub struct WorkBudgetExceeded {
+    /// The number of work ticks performed when the budget was exceeded.
+    pub ticks: u64,
+}
+
+/// Reset the work counter of this thread and set its budget.
+pub fn set_work_budget(budget: u64) {
+    WORK_TICKS.with(|t| t.set(0));
+    WORK_BUDGET.with(|b| b.set(budget));
+}
+
+/// Number of work ticks on this thread since the last [`set_work_budget`].
+#[must_use]
+pub fn work_ticks() -> u64 {
+    WORK_TICKS.with(Cell::get)
+}
+
+/// Called once per iteration of a scanner / parser / input loop.
+#[inline]
+pub fn work_tick() {
+    work_tick_n(1);
+}
+
+/// Account for `n` units of work at once (e.g. the elements moved by a queue insertion).
+///
+/// # Panics
+/// Panics with a [`WorkBudgetExceeded`] payload when the budget of this thread is exceeded. The
+/// budget is disarmed first so that unwinding code cannot panic again.
+#[inline]
+pub fn work_tick_n(n: u64) {
+    let ticks = WORK_TICKS.with(|t| {
+        t.set(t.get().saturating_add(n));
+        t.get()
+    });
+    if ticks > WORK_BUDGET.with(Cell::get) {
+        WORK_BUDGET.with(|b| b.set(u64::MAX));
+        std::panic::panic_any(WorkBudgetExceeded { ticks });
+    }
+}
